@@ -536,6 +536,21 @@ var vEnumPool = []vSpecEntry{
 	{P: "h/x", Typ: "bind", Origin: "", V: 1},
 }
 
+// hand-written histories that are always run (regression seeds for behaviours first seen in random runs)
+var vExtraCases = []vCase{
+	{Case: "x-1", Updates: [][]vSpecEntry{
+		{{P: "a/b/n", Typ: "file", V: 1}, {P: "a/b", Typ: "rbind", V: 2}},
+		{{P: "a/b", Typ: "tmpfs", Origin: "layout", V: 2}, {P: "a/b/n", Typ: "file", V: 1}}}},
+	{Case: "x-2", Updates: [][]vSpecEntry{
+		{{P: "a", Typ: "tmpfs", Origin: "layout", V: 1}, {P: "a/b", Typ: "rbind", Origin: "layout", V: 1}},
+		{{P: "a", Typ: "tmpfs", Origin: "layout", V: 1}, {P: "a/b", Typ: "rbind", Origin: "layout", V: 1}},
+		{}}},
+	{Case: "x-3", Rootfs: true, Updates: [][]vSpecEntry{
+		{{P: "e", Typ: "bind", Origin: "layout", V: 1}, {P: "a/n", Typ: "symlink", Origin: "layout", V: 1}},
+		{{P: "e", Typ: "bind", Origin: "layout", V: 2}, {P: "a/n", Typ: "symlink", Origin: "layout", V: 1}},
+		{{P: "a/n", Typ: "symlink", Origin: "layout", V: 1}}}},
+}
+
 func vDistinctDirs(es []vSpecEntry) bool {
 	seen := map[string]bool{}
 	for _, e := range es {
@@ -807,6 +822,9 @@ func TestVerifMountPlan(t *testing.T) {
 			emit(c)
 		}
 	} else {
+		for _, c := range vExtraCases {
+			emit(c)
+		}
 		if k := vEnvInt("VERIF_ENUM_K", 2); k > 0 {
 			vEnumerate(k, 0, emit)
 		}
